@@ -256,6 +256,31 @@ func runC50(c *Ctx) {
 	}
 	c.Floor(r6, 1)
 
+	// git archive lists every path of the tree, however many paths share one tree object. The tree walker skips every
+	// entry whose hash is in the `seen` set it is given, so the archive writers hand it none.
+	const r7 = "every-path-listed"
+	for _, wn := range []string{"WriteTarArchive", "WriteZipArchive"} {
+		fi := p.Func(ar + "." + wn)
+		if fi == nil {
+			continue
+		}
+		k := 0
+		walkCalls(fi.Decl.Body, false, func(call *ast.CallExpr) {
+			fn := Callee(info, call)
+			if fn == nil || fn.Name() != "NewTreeWalker" || len(call.Args) != 3 {
+				return
+			}
+			k++
+			ok := isNil(info, call.Args[2])
+			c.Check(ok, r7, fi.Name()+"->NewTreeWalker", call.Pos(), orStr(ifStr(!ok, "the walker is given a seen set ("+exprString(call.Args[2])+"): it skips every entry whose object was met before, so a directory whose tree object also occurs at another path (vendored copies, identical testdata) is left out of the archive"),
+				"the walker is given no seen set: every path is listed"))
+		})
+		if k == 0 {
+			c.Unresolved(r7, fi.Name()+"->NewTreeWalker", fi.Decl.Pos(), "no tree walker constructed")
+		}
+	}
+	c.Floor(r7, 2)
+
 	const r2 = "prefix-entry"
 	for _, wn := range []string{"WriteTarArchive", "WriteZipArchive"} {
 		fi := p.Func(ar + "." + wn)
